@@ -111,6 +111,11 @@ class ExtLib:
                                meta=meta or {}, where=self.I.where(node, ms), stack=tuple(self.I.call_stack),
                                args=list(reads)))
         al.derivation = (how, list(reads), meta or {})
+        deps = {}
+        for r in list(reads) + list((meta or {}).get("index", []) if isinstance((meta or {}).get("index", []), (list, tuple)) else []):
+            if isinstance(r, Arr):
+                deps[r.alloc.id] = getattr(r.alloc, "cver", 0)
+        al.dep_versions = deps
         return out
 
     def shape_arg(self, v):
@@ -364,7 +369,7 @@ class ExtLib:
         kinds = [a.dtype.kind for a in arrs]
         dt = arrs[0].dtype
         for a in arrs:
-            if a.dtype.kind == "c":
+            if a.dtype.kind in ("c", "pc"):
                 dt = a.dtype
         if name in ("eq", "ne", "lt", "le", "gt", "ge"):
             dt = DType("bool")
@@ -395,6 +400,9 @@ class ExtLib:
                         vals.append(o)
                 return self.scalar_op(name, vals)
         if out is not None:
+            if dt.kind in ("c", "pc") and out.dtype.kind not in ("c", "pc"):
+                self.I.problem("dtype", "numpy ufunc with out=%s: operands may be complex (result of numpy.linalg.eig) but the output "
+                               "array is real; numpy refuses the cast" % out.describe(), node, ms)
             self.I.trace.append(Op("NumpyOp", fn=name, reads=arrs, out=out, meta={"out_kw": True},
                                    where=self.I.where(node, ms), stack=tuple(self.I.call_stack), args=list(operands)))
             return out
@@ -784,13 +792,14 @@ class ExtLib:
         if not _dim_eq(sx[ax], sy[ay]):
             self.I.problem("shape", "tensordot contraction of mismatched axes %s[%d] and %s[%d]" % (x.describe(), ax, y.describe(), ay), n, ms)
         shape = tuple(s for i, s in enumerate(sx) if i != ax) + tuple(s for i, s in enumerate(sy) if i != ay)
-        return self.derived_array("tensordot", [x, y], shape, x.dtype, n, ms, meta={"axes": (ax, ay)})
+        dt = y.dtype if y.dtype.kind in ("c", "pc") else x.dtype
+        return self.derived_array("tensordot", [x, y], shape, dt, n, ms, meta={"axes": (ax, ay)})
 
     def c_numpy_linalg_eig(self, a, k, n, ms):
         m = a[0]
         nn = m.shape[0]
-        vals = self.derived_array("eig_vals", [m], (nn,), DType("eig-possibly-complex"), n, ms)
-        vecs = self.derived_array("eig_vecs", [m], (nn, nn), DType("eig-possibly-complex"), n, ms)
+        vals = self.derived_array("eig_vals", [m], (nn,), DType("possibly_complex"), n, ms)
+        vecs = self.derived_array("eig_vecs", [m], (nn, nn), DType("possibly_complex"), n, ms)
         return (vals, vecs)
 
     def c_numpy_linalg_eigh(self, a, k, n, ms):
@@ -809,6 +818,9 @@ class ExtLib:
         out = k.get("out")
         shape = (mats[0].shape[0], mats[-1].shape[-1])
         if out is not None:
+            if any(m.dtype.kind in ("c", "pc") for m in mats) and out.dtype.kind not in ("c", "pc"):
+                self.I.problem("dtype", "numpy.linalg.multi_dot(..., out=%s): a factor may be complex (result of numpy.linalg.eig) but the "
+                               "output array is real; numpy rejects the output array" % out.describe(), n, ms)
             self.I.trace.append(Op("NumpyOp", fn="multi_dot", reads=list(mats), out=out, meta={"out_kw": True},
                                    where=self.I.where(n, ms), stack=tuple(self.I.call_stack), args=list(mats)))
             return out
